@@ -5,6 +5,7 @@
 -/
 import Robotools.Model.World
 import Robotools.Model.Replay
+import Robotools.Model.ReplayInit
 import Robotools.Model.Transform
 import Robotools.Model.Save
 import Robotools.Model.Dilution
@@ -336,12 +337,7 @@ def initWorld : World :=
   { cfg := { dev := .evo, maxVolume := 950, autoSplit := true, ditiMode := false },
     labs := [], recs := [], carry := [] }
 
-def rstateOf (labs : List Labware) : RState :=
-  { labs := labs.map fun L =>
-      { name := L.name, geom := L.geom, minV := L.minV, maxV := L.maxV,
-        wells := (List.range L.vols.length).map fun i =>
-        { vol := L.vol i, amts := L.comp.map fun (k, arr) => (k, arr.getD i 0 * L.vol i) } },
-    tip := [] }
+def rstateOf (labs : List Labware) : RState := RState.ofLabs labs
 
 def handle (st : DState) (initLabs : List Labware) (line : String) :
     DState × List Labware × String :=
